@@ -91,6 +91,18 @@ func drawOp(t *rapid.T, ss *gen.SchemaSpec) c12Op {
 		}
 
 		op.payload = []byte(`{"data":[` + strings.Join(members, ",") + `]}`)
+
+		// ... or the list is what the document includes (now and then a long
+		// one), next to no primary data.
+		if rapid.IntRange(0, 2).Draw(t, "asincluded") == 0 {
+			if rapid.IntRange(0, 2).Draw(t, "manyincluded") == 0 && len(members) > 0 {
+				for len(members) < 33 {
+					members = append(members, fmt.Sprintf(`{"type":%s,"id":"filler-%d"}`, gen.QuoteJSON(ts.Name), len(members)))
+				}
+			}
+
+			op.payload = []byte(`{"data":[],"included":[` + strings.Join(members, ",") + `]}`)
+		}
 	case "new-set-get", "marshal", "marshal-softcol":
 		op.vals = gen.FillResource(t, gen.NewResource(ts), ts, "v")
 	case "has-type", "get-type":
@@ -149,6 +161,11 @@ func runOp(schema *jsonapi.Schema, ss *gen.SchemaSpec, op c12Op, held *[]c12Held
 		digest := fmt.Sprintf("collection of %d:", col.Len())
 		for i := 0; i < col.Len(); i++ {
 			digest += " " + hold(col.At(i), "doc "+c12Digest(col.At(i)))
+		}
+
+		digest += fmt.Sprintf(" included %d:", len(doc.Included))
+		for _, inc := range doc.Included {
+			digest += " " + hold(inc, "doc "+c12Digest(inc))
 		}
 
 		return digest
